@@ -94,6 +94,12 @@ CLAIMED = {
     text='On five small bases (2x2, 3x2, refined 2x2 with triangles, a pentagon mesh, a hexagon mesh; one column cut inside a layer, one exactly on a layer boundary; several atmosphere types and conventions) every single operation - refine with every column subset and every bisection mode with and without edge columns, decompose, reduce to every connected subset, split at every node, rename, refine_layers over every layer subset x factor 2..4, snapping, rotate, translate, copy_layers_from, atmosphere / block-order changes, check(fix) - and every pair of operations is executed and judged: lookups vs lists, node->column, column->connection and symmetric neighbour back-references, connection nodes = shared edge, counter-clockwise columns with up-to-date area, num_layers vs surface, block and connection name lists vs an own fresh derivation, and for operations that promise a valid mesh no missing / extra connections and no orphan nodes (from the polygons alone). Sampled triples and random sequences of up to 25 operations on geometries of up to 300 columns (shipped ones included, optionally followed by a file round trip) add depth; the add_/delete_ primitives are judged immediately after each call.',
     note='Trusted: vf/oracle/geoinv.py. Operations are identified by their index in a position-sorted canonical enumeration because refine() names new columns in set-iteration order. Domain: connected geometries; refine only where the selection and the columns around it are 3- or 4-sided; rename onto unused names. Known findings: the primitives do not refresh derived data (13 mechanism keys).',
     design='DESIGN.md §3 C10'),
+
+ 'C11': dict(
+    technique='runtime conservation-and-tiling monitor around real refine / bisect / split / triangulate / decompose / refine_layers executions, with own area, volume, containment and conformity measurements and sys.monitoring probes on the nested transition / decomposition case code',
+    text='Before and after each real operation (all selections on the small bases incl. second-level refinements, single columns / strips / L-shapes / boundary regions / annuli / random subsets on random rectangular geometries with surfaces below, inside, on and above layers, patches of shipped irregular geometries, synthetic 5..9-gons with 0..4 straight angles at every position and every rotation of the node list, every layer subset x factor) the harness measures total plan area and rock volume with own shoelace code, compares them with the stored areas and with the sum of the geometry\'s own block volumes, places sample points (centroids, random interior points, points just inside every old side and corner) and requires each to lie in exactly one new column that lies inside the old column and inherits its surface, and checks conformity from the polygons alone (no node in the interior of another column\'s edge, shared edge <=> connection). Probes on refine.transition_type and decompose_column record which of the 8 transition types and 6 decomposition cases were actually exercised; a run that misses one is inconclusive.',
+    note='Trusted: vf/oracle/polygeo.py, vf/oracle/geoinv.py. Refine is requested only where the selection and the columns around it are 3- or 4-sided (the only shapes it supports); after triangulate_column (a helper that adds no connections) the harness adds the missing connections before judging conformity.',
+    design='DESIGN.md §3 C11'),
 }
 
 def main():
